@@ -4,6 +4,8 @@ Theorems about the mirror of `deduplicate_select_items`, the step that decides w
 block survive (as repaired by the commit `fix: deduplicate_select_items compares whole identifiers`).
 -/
 import PrqlModel.Model.Projection
+import PrqlModel.Model.Wildcards
+import PrqlModel.Lemmas.Wildcards
 namespace Props.C05
 open Model.Projection
 
@@ -89,5 +91,102 @@ theorem kept_length (seen : List (List Ident)) (i : Nat) (items : List Item) :
     | compound ps => simp only [keptFrom, dedupFrom]; split <;> simp [ih]
     | aliased a => simp only [keptFrom, dedupFrom]; split <;> simp [ih]
     | other => simp [keptFrom, dedupFrom, ih]
+
+/-! ## `translate_wildcards`: the select list with stars and exclusion sets
+
+`Model.Wildcards.run env cols = (output, excluded)` mirrors `translate_wildcards` (tied to the real function through
+the hook `hook_wildcards`). `shown env excluded output` is what that select list shows, as column ids: a plain
+column itself, a star its wildcard plus every known column of its instance that is not in its exclusion set. -/
+section Wildcards
+open Model.Wildcards
+
+/-- the requests the Lowerer can make: every star at most once, and the known columns of a requested star's
+instance are not themselves wildcards -/
+def WF (env : Env) (cols : List Nat) : Prop :=
+  (cols.filter (fun c => (env.wild c).isSome)).Nodup ∧
+  ∀ w ∈ cols, ∀ r, env.wild w = some r → ∀ x ∈ env.orig r, x ≠ w → env.wild x = none
+
+/-- **exactness**: what the select list with its EXCLUDE lists shows is exactly (as a multiset) what was requested -/
+theorem wildcards_exact (env : Env) (cols : List Nat) (h : WF env cols) :
+    (shown env (run env cols).2 (run env cols).1).Perm cols := by
+  have hi := Lemmas.Wildcards.runSt_inv env cols h.1 h.2
+  have h1 : (shown env (run env cols).2 (run env cols).1).Perm
+      (shown env (flush (runSt env cols).star (runSt env cols).excl) (runSt env cols).outRev) :=
+    List.Perm.flatMap_right _ (List.reverse_perm _)
+  exact h1.trans (List.perm_iff_count.2 hi.cnt)
+
+/-- the same for the EMITTED list, where a star's exclusion set is consumed by its first occurrence
+(`excluded.remove(&cid)` in `translate_select_items`) -/
+theorem wildcards_exact_emitted (env : Env) (cols : List Nat) (h : WF env cols) :
+    (shownEmit env (run env cols).2 (run env cols).1).Perm cols := by
+  rw [Lemmas.Wildcards.shownEmit_eq_shown]
+  · exact wildcards_exact env cols h
+  · intro c hc
+    have h1 := (Lemmas.Wildcards.runSt_sublist env cols).count_le c
+    have h2 := List.nodup_iff_count.1 h.1 c
+    rw [List.count_filter (by simpa using hc)] at h2
+    exact Nat.le_trans h1 h2
+
+/-- nothing is invented and the requested order is kept (no hypothesis) -/
+theorem wildcards_output_sublist (env : Env) (cols : List Nat) : (run env cols).1.Sublist cols :=
+  Lemmas.Wildcards.runSt_sublist env cols
+
+/-- every exclusion set belongs to a star and names known columns of that star's instance, never the star itself
+(no hypothesis): the EXCLUDE list of `r.*` only mentions columns `r.*` shows -/
+theorem wildcards_excluded_known (env : Env) (cols : List Nat) :
+    ∀ p ∈ (run env cols).2, ∃ r, env.wild p.1 = some r ∧ ∀ y ∈ p.2, y ∈ env.orig r ∧ y ≠ p.1 := by
+  have hi := Lemmas.Wildcards.runSt_invEx env cols
+  intro p hp
+  obtain ⟨r, hr, hS⟩ := Lemmas.Wildcards.flush_exok hi.star hi.excl p hp
+  exact ⟨r, hr, fun y hy => ⟨(Lemmas.Wildcards.mem_known.1 (hS y hy)).2, (Lemmas.Wildcards.mem_known.1 (hS y hy)).1⟩⟩
+
+/-- on dialects without an exclusion facility (the exclusion sets are dropped) nothing requested is lost; extra
+columns may appear (known finding star-projection-extra-columns) -/
+theorem wildcards_no_exclude_superset (env : Env) (cols : List Nat) (h : WF env cols) :
+    ∀ x ∈ cols, x ∈ shown env [] (run env cols).1 := by
+  intro x hx
+  exact Lemmas.Wildcards.shown_subset_nil env _ _ x ((wildcards_exact env cols h).mem_iff.2 hx)
+
+/-- instance 0 = `[a = 0, b = 1, star = 2]`, instance 1 = `[c = 3, star = 4]`, 5 is computed -/
+def exEnv : Env where
+  wild := fun c => if c = 2 then some 0 else if c = 4 then some 1 else none
+  orig := fun r => if r = 0 then [0, 1, 2] else if r = 1 then [3, 4] else []
+
+theorem exEnv_wf : WF exEnv [0, 2, 5, 4, 3] := by
+  refine ⟨by decide, ?_⟩
+  intro w hw r hr x hx hne
+  have hall : ∀ w ∈ [0, 2, 5, 4, 3], ∀ x ∈ exEnv.orig ((exEnv.wild w).getD 9), x ≠ w → exEnv.wild x = none := by
+    decide
+  have := hall w hw x
+  rw [hr] at this
+  exact this hx hne
+
+/-- the hypotheses are satisfiable on an input with a popped column (`a`, requested right before its star), an
+excluded one (`b`, not requested), a column shown by a preceding star (`c`) and a computed column -/
+example : WF exEnv [0, 2, 5, 4, 3] ∧ run exEnv [0, 2, 5, 4, 3] = ([2, 5, 4], [(2, [1])]) := ⟨exEnv_wf, by decide⟩
+
+/-- **the same star requested twice** (outside `WF`): for `cols = [star, a, star]` the second flush overwrites the
+first exclusion set (`HashMap::insert`), both stars then exclude `a` and `b`, and `a` is not shown at all -/
+theorem wildcards_duplicate_star_counterexample :
+    ¬ (shown exEnv (run exEnv [2, 0, 2]).2 (run exEnv [2, 0, 2]).1).Perm [2, 0, 2] ∧
+    shown exEnv (run exEnv [2, 0, 2]).2 (run exEnv [2, 0, 2]).1 = [2, 2] ∧
+    ¬ WF exEnv [2, 0, 2] :=
+  ⟨by decide, by decide, fun h => absurd h.1 (by decide)⟩
+
+/-- instance 0 = `[a = 0, star = 1, helper = 2]` (a relation with a generated column, e.g. a row number) -/
+def exEnv2 : Env where
+  wild := fun c => if c = 1 then some 0 else none
+  orig := fun _ => [0, 1, 2]
+
+/-- **the same star requested twice, as emitted**: for the request `[a, star, a, star]` (what `select {t.*, t.*}` asks
+for) both stars get the exclusion set `{helper}`, but the emitted list uses it for the first star only: the second
+`*` shows the helper column, which nobody requested. Reachable from source, see the report of C05. -/
+theorem wildcards_duplicate_star_emitted_counterexample :
+    run exEnv2 [0, 1, 0, 1] = ([1, 1], [(1, [2]), (1, [2])]) ∧
+    shown exEnv2 (run exEnv2 [0, 1, 0, 1]).2 (run exEnv2 [0, 1, 0, 1]).1 = [1, 0, 1, 0] ∧
+    shownEmit exEnv2 (run exEnv2 [0, 1, 0, 1]).2 (run exEnv2 [0, 1, 0, 1]).1 = [1, 0, 1, 0, 2] ∧
+    ¬ (shownEmit exEnv2 (run exEnv2 [0, 1, 0, 1]).2 (run exEnv2 [0, 1, 0, 1]).1).Perm [0, 1, 0, 1] := by decide
+
+end Wildcards
 
 end Props.C05
